@@ -460,12 +460,15 @@ RECURSIVE SetToSeqOps(_, _)
 SetToSeqOps(S, k) == IF S = {} THEN <<>>
                      ELSE LET x == CHOOSE y \in S : TRUE IN
                           << [op |-> "forceExit", x |-> x, k |-> k] >> \o SetToSeqOps(S \ {x}, k)
-ExitFrame(condFirst) ==
+\* The order in which SEVERAL still-running conditional auxiliaries of one frame are exited is not documented
+\* either: the candidate order or its reverse (rev \in BOOLEAN; every order for up to two of them).
+ExitFrame(condFirst, rev) ==
     /\ todo # <<>> /\ H.op = "exitFrame"
     /\ LET f == H.f  k == H.k  as == AuxesOf(k)
            plain == Flatten([i \in 1..Len(as) |-> << [op |-> "exitAll", f |-> as[i], abort |-> FALSE],
                                                      [op |-> "setMain", a |-> as[i], k |-> ""] >>])
-           cond == SetToSeqOps({x \in CondAuxesOf(k) : ~fs[x].done /\ fs[x].main = k}, k) IN
+           cond0 == SetToSeqOps({x \in CondAuxesOf(k) : ~fs[x].done /\ fs[x].main = k}, k)
+           cond == IF rev THEN Reverse(cond0) ELSE cond0 IN
        /\ Push(IF condFirst THEN plain \o cond \o ActOps(f, k, "exit")
                             ELSE plain \o ActOps(f, k, "exit") \o cond)
        /\ entered' = [entered EXCEPT ![k] = @ - 1]
@@ -741,7 +744,7 @@ FiatRet ==
     /\ UNCHANGED <<stamps, xstore, marks, prog, phase, now, tickn, pending, ready, more, cur, fs, store, entered, crashed, sweeps>>
 
 MachineStep == FiatRet \/ RunOp \/ SetStatus \/ Yield \/ EnterAll \/ EnterFrames \/ EnterFrame \/ SetMain \/ ExitAll
-               \/ Deactivate \/ (\E b \in BOOLEAN : ExitFrame(b)) \/ ForceExit \/ Activate \/ Segue \/ Recur \/ RecurFrame \/ PrecurWalk \/ MarkedGo
+               \/ Deactivate \/ (\E b, rv \in BOOLEAN : ExitFrame(b, rv)) \/ ForceExit \/ Activate \/ Segue \/ Recur \/ RecurFrame \/ PrecurWalk \/ MarkedGo
                \/ (\E b \in BOOLEAN : Suspend(b)) \/ Reactivate \/ DoAct \/ Requeue
 
 \* values the environment may write into an input share
